@@ -32,7 +32,10 @@ NSHARDS = 16
 PY = {"int": int, "float": float, "str": str, "bool": bool}
 INTS = [0, 1, -1, 2 ** 63 - 1, -2 ** 63, 7, -300000, 2 ** 31, 255]
 FLOATS = [0.5, -0.0, float("nan"), float("inf"), float("-inf"), 5e-324, 1.7976931348623157e308, 2.5, 1.25, 1e-7, 0.1]
-STRS = ["", "a", "üñí ∂", "x y", "long" * 40, "0", "True", "1.5", "\t", "a/b"]
+STRS = ["", "a", "üñí ∂", "x y", "long" * 40, "0", "True", "1.5", "\t", "a/b",
+        # text that is not in a Unicode normal form (it must come back code point for code point): combining sequence, OHM / ANGSTROM /
+        # KELVIN SIGN, conjoining jamo, compatibility ideograph and ligature, marks in non-canonical order, an astral character
+        "Cafe\u0301", "\u2126", "\u212b", "\u212a", "\u1112\u1161\u11ab", "\uf900", "\ufb01n", "a\u0323\u0307", "a\u0307\u0323", "\U0001f9ea", " lead", "trail "]
 BOOLS = [True, False]
 
 
